@@ -21,7 +21,7 @@ PLAN_Q2 = {'shipped': True, 'uniform': [], 'perop': ['NQ', 'SRQ8a', 'WO4c'],
 
 def cases(tier):
   for xs in ('S4', 'S43', 'O13', 'O35'):
-    for c in universe.graph_cases([(1, eg.T21 + eg.U, 'all', 'none')],
+    for c in universe.graph_cases([(1, eg.T21 + eg.U, 'allx', 'none')],
                                   {'rp': 'p'}):
       c['ir']['x'] = xs
       yield c
